@@ -30,3 +30,16 @@ theorem v1_guarantee_sizes :
 theorem nft_amount : GEN_NFT_AMOUNT = 1 := by decide
 
 end LP.Props.Constants
+
+#print axioms LP.Props.Constants.first_ticket_id
+#print axioms LP.Props.Constants.usize_bytes
+#print axioms LP.Props.Constants.hash_len
+#print axioms LP.Props.Constants.max_tickets_allowance
+#print axioms LP.Props.Constants.max_guaranteed_entries
+#print axioms LP.Props.Constants.v2_max_percentage
+#print axioms LP.Props.Constants.v1_max_percentage
+#print axioms LP.Props.Constants.max_milestones
+#print axioms LP.Props.Constants.max_release_round_diff
+#print axioms LP.Props.Constants.lock_max_percentage
+#print axioms LP.Props.Constants.v1_guarantee_sizes
+#print axioms LP.Props.Constants.nft_amount
